@@ -12,13 +12,15 @@ LEVEL_TEXT = ("tapkee is rebuilt from src/cli/main.cpp of the working tree and r
               "against the library result printed with full precision, --precompute twins, projection-file presence and contents, the --debug echo of every option at its help default and at non-default values, "
               "the exit status of invalid invocations and malformed inputs.")
 LEVEL_NOTE = "Values are compared to 1e-5 relative (the executable prints 6 digits). Random methods (srand(time)) are only checked for shape and status. Reference = tapkee::with(params).embedUsing(matrix)."
-ASSUMPTIONS = ["CLI defaults are read from its own --help output", "OMP_NUM_THREADS=1 for the executable and the reference (thread counts are C15)", "gcc -O2 sample: column signs aligned before comparing"]
+ASSUMPTIONS = ["CLI defaults are read from its own --help output", "OMP_NUM_THREADS=1 for the executable and the reference (thread counts are C15)", "the gcc -O2 sample is compared with a gcc -O2 build of the reference"]
 
 
 def targets(tier):
     main = os.path.join(build.REPO, "src", "cli", "main.cpp")
     return [Target("cli_asan", "asan", [main]), Target("cli_prod", "prod", [main]),
-            Target("cliref", "asan", ["d_cliref.cpp", "embed_api.cpp", ("forms.cpp", ("-DFORM=10",))])]
+            Target("cliref", "asan", ["d_cliref.cpp", "embed_api.cpp", ("forms.cpp", ("-DFORM=10",))]),
+            # the gcc -O2 executable is compared with a reference built the same way: both then perform bitwise the same computation
+            Target("cliref_prod", "prod", ["d_cliref.cpp", "embed_api.cpp", ("forms.cpp", ("-DFORM=10",))])]
 
 
 NAMES = ["locally_linear_embedding", "lle", "local_tangent_space_alignment", "ltsa", "hessian_locally_linear_embedding", "hlle",
@@ -94,7 +96,7 @@ def stages(tier, seed, bins):
     os.makedirs(tmp, exist_ok=True)
     env_asan = {"CLI_BIN": bins["cli_asan"], "CLIREF_BIN": bins["cliref"], "CLI_TMP": tmp,
                 "ASAN_OPTIONS": "detect_leaks=0:abort_on_error=0:exitcode=86:symbolize=1", "UBSAN_OPTIONS": "print_stacktrace=1:halt_on_error=1:exitcode=87"}
-    env_prod = dict(env_asan, CLI_BIN=bins["cli_prod"], CLI_ALIGN_SIGNS="1")
+    env_prod = dict(env_asan, CLI_BIN=bins["cli_prod"], CLIREF_BIN=bins["cliref_prod"])
     sample = [dict(c, id="g" + c["id"]) for c in cases if c["kind"] in ("roundtrip", "exit")][::3]
     return [dict(name="asan", exe=driver, cases=cases, timeout=900, env=env_asan),
             dict(name="prod", exe=driver, cases=sample, timeout=900, env=env_prod)]
